@@ -30,6 +30,17 @@ def leadersOut (rng : Nat → List (Nat × Nat)) (views : List (List Nat)) : Str
   | some ls => ",".intercalate (ls.map showAddr)
   | none => "PANIC runtime error: index out of range [0] with length 0"
 
+/-- (seed, rng) pairs of an lseq line -/
+def parseSteps : List String → Option (List (Nat × (Nat → List (Nat × Nat))))
+  | [] => some []
+  | seed :: rng :: rest => do
+    if !isSeed seed then none
+    let s ← parseHexNat seed
+    let r ← parseRng rng
+    let tl ← parseSteps rest
+    pure ((s, r) :: tl)
+  | _ => none
+
 def be64 (n : Nat) : List UInt8 := C22.Sha256.be64 n
 
 def model (line : String) : String :=
@@ -38,6 +49,14 @@ def model (line : String) : String :=
     match isSeed seed, parseRng rng, parseViews views with
     | true, some r, some vs => leadersOut r vs
     | _, _, _ => "bad-op"
+  | "lseq" :: view :: steps =>
+    match parseViews view, parseSteps steps with
+    | some [v], some st =>
+      if st.isEmpty then "bad-op" else
+      match (C22.leaderSeq (st.map (·.2)) v).mapM id with
+      | some ls => let o := ",".intercalate (ls.map showAddr); s!"{o} {o}"
+      | none => "PANIC runtime error: index out of range [0] with length 0"
+    | _, _ => "bad-op"
   | ["checklist", idx, seed, k] =>
     match idx.toNat?, isSeed seed, k.toNat? with
     | some i, true, some k => showList (C22.checklist i (C22.draw k))
@@ -62,6 +81,19 @@ def monitor (op obs : String) : String :=
     match parseViews views, parseLeaders obs with
     | some vs, some ls => if vs.length == ls.length && C22.holdsLeader (vs.zip ls) then "ok" else "FAIL leader-rule"
     | some vs, none => if vs.any List.isEmpty && obs.startsWith "PANIC" then "ok" else "FAIL unparsable-observation"
+    | _, _ => "FAIL bad-op"
+  | "lseq" :: view :: steps =>
+    match parseViews view, parseSteps steps with
+    | some [v], some st =>
+      match splitWs obs with
+      | [l, f] =>
+        match parseLeaders l, parseLeaders f with
+        | some ll, some fl =>
+          if ll.length != st.length then "FAIL unparsable-observation"
+          else if ll != fl then "FAIL members-with-different-histories-disagree"
+          else if C22.holdsLeaderSeq v (st.map (·.1)) ll fl then "ok" else "FAIL leader-rule"
+        | _, _ => "FAIL unparsable-observation"
+      | _ => if v.isEmpty && obs.startsWith "PANIC" then "ok" else "FAIL unparsable-observation"
     | _, _ => "FAIL bad-op"
   | ["checklist", idx, _, k] =>
     match idx.toNat?, k.toNat?, parseNats obs with
